@@ -25,7 +25,7 @@ CHECKS = {
     "C20": ("model_checking", "6 C20", "ScalingFn.tla transcribes frexp, row maxima of the column-prescaled Jacobian and the square-root column-sum equilibration in exact integer arithmetic; TLC checks the [1,2) / [1,4) normalisation over the whole domain (entries below one included); every case is replayed through scale.py and the predicate is evaluated with Fractions on the code's own weights", "kernel TLA+ spec (exhaustive on an exact domain) + exact conformance replay"),
     "C01": ("model_checking", "6 C01", "KKTAbs.tla: TLC proves InternalKKT => UserKKT for all internal class combinations (which user-level clauses a Return may be held to); every Optimal Return of a sweep over scalings x row kinds x solver configurations carries oracle classes of the user's problem at (x,y,d) and TLC evaluates UserKKT on it; IntegrationLoop.tla (loop, free set, events, penalty) + the same validation for IntegrationSolver's recorded runs; FlowFilter.tla (free set / event triggers / deciding event of the flow-integration solver) replayed case by case on the real code", "TLA+ model checking (design theorem) + trace validation of every Optimal return"),
     "C03": ("exploration", "6 C03", "seeded well-posed strictly convex QPs (hypotheses checked numerically per instance) under the default and the listed single-parameter variants must return Optimal within 2000 iterations; convergence is not decidable by a finite-state model, so this is exploration of observed executions (each also trace-validated against GradFlow.tla)", "generator-driven exploration + trace validation (clause wellposed.solved)"),
-    "C17": ("model_checking", "6 C17", "LinSolve.tla owns the exact facts (determinant, structural singularity, Cramer solution; sanity model-checked) and the outcome relation; all 625 integer 2x2 and 538 structured 3x3 matrices x rhs x trans x solver x guess x format are executed on the real solvers and each observed outcome is validated by TLC (residual computed in integers); larger random systems by a float oracle (exploration-grade)", "kernel TLA+ spec + outcome validation by TLC"),
+    "C17": ("model_checking", "6 C17", "LinSolve.tla owns the exact facts (determinant, structural singularity, Cramer solution; sanity model-checked) and the outcome relation; all 625 integer 2x2 and 538 structured 3x3 matrices x rhs x trans x solver x guess x format are executed on the real solvers and each observed outcome is validated by TLC (residual computed in integers); larger random systems (right-hand sides of magnitude 1e-5 .. 1e7, cold and warm starts) by a float oracle (exploration-grade); every factorisation / solve inside a sweep of real solves is a Lin event of GradFlow.tla carrying an independent residual class (clause lin.converged)", "kernel TLA+ spec + outcome validation by TLC"),
     "C19": ("model_checking", "6 C19", "DerivCheck.tla: check order and column loop explored for every set of <= 2 wrong entries x magnitude class x flag; each final verdict replayed through Solver.solve (which check raised, column, rows); twin real solves with/without the check must be bit-identical", "TLA+ model checking of the decision logic + conformance replay + twin trace validation"),
 }
 PENDING = {
